@@ -16,9 +16,18 @@ def ackRof : Option Nat → List Act
 
 theorem fuelOf_succ (c : Cfg) : ∃ n, fuelOf c = n + 1 := ⟨_, rfl⟩
 
-theorem advance_done_top (q : Quirks) (c : Cfg) (fuel ev : Nat) (rp : Option Nat) (v : Vol) :
+theorem advance_done_top (q : Quirks) (c : Cfg) (fuel ev : Nat) (rp : Option Nat) (v : Vol) (hj : v.joins = []) :
     advance q c (fuel + 1) ev .done [] none rp v = ([.note true, .ackEv ev] ++ ackRof rp, v) := by
-  cases rp <;> simp [advance, ackRof]
+  cases rp <;> simp [advance, ackRof, hj]
+
+/-- a top-level event is dropped exactly when it is delivered for the first time after the terminal notification -/
+theorem inDead_top (c : Cfg) (v : Vol) (m : QEv) {t : Sk} {start : Bool} (hk : m.kind = .visit t [] start none)
+    (hf : c.failed = 0) : inDeadJoin Quirks.none c v m = (decide (c.notes > 0) && !m.redelivered) := by
+  simp [inDeadJoin, evJids, evOwner, hk, hf]
+
+theorem dropEv_top (q : Quirks) (c : Cfg) (v : Vol) (m : QEv) {t : Sk} {start : Bool} (hk : m.kind = .visit t [] start none) :
+    dropEv q c v m = ([.ackEv m.id], v) := by
+  simp [dropEv, evJids, hk]
 
 /-- the skeleton goes on with a visit -/
 def Sk.isVisit : Sk → Bool
@@ -343,8 +352,36 @@ theorem good_ev (c c' : Cfg) (id : Nat) (cut : Option Nat) (h : SInv c)
       · exact hn2 h
     have hlen := length_insertNat_new hnt
     rw [he] at t_sub p_sub he_sub u_ev t_kind p_kind
-    simp only [hk, inDeadJoin, evStack, List.any_nil, Bool.false_eq_true, if_false, hpre none rfl, hn] at hs
     have hc1 : ({ c with evq := l1 ++ m' :: l2 } : Cfg).evq = l1 ++ m' :: l2 := rfl
+    simp only at hs
+    rw [inDead_top ({ c with evq := l1 ++ m' :: l2 } : Cfg) _ m hk h.dur.nofail,
+      dropEv_top _ ({ c with evq := l1 ++ m' :: l2 } : Cfg) _ m hk] at hs
+    by_cases hdrop : (decide (c.notes > 0) && !m.redelivered) = true
+    · -- delivered for the first time after the terminal notification: dropped
+      have hnotes : 1 ≤ c.notes := by
+        simp only [Bool.and_eq_true, decide_eq_true_eq] at hdrop; exact hdrop.1
+      simp only [show (({ c with evq := l1 ++ m' :: l2 } : Cfg).notes) = c.notes from rfl, hdrop, if_true, Option.some.injEq] at hs
+      subst hs
+      have h1' := h1
+      have h2' := h2
+      rw [← hid'] at h1' h2' hlt ⊢
+      refine good_handler cut hd1 ⟨Or.inl hnotes, trivial⟩ (by simp [Cfg.vol, hnj]) ?_
+      have hq := ack_split h1' h2' (l3 := []) (by simp) hu'
+      simp only [List.append_nil] at hq
+      have hfold : List.foldl Cfg.act ({ c with evq := l1 ++ m' :: l2 } : Cfg) [Act.ackEv m'.id] =
+          { c with evq := l1 ++ l2 } := by
+        simp only [List.foldl, Cfg.act]
+        rw [show (fun m => !(m.id == m'.id && m.unacked)) = ackP m'.id from rfl, hq]
+      rw [hfold]
+      refine ⟨by voli_grind, fun _ => by mu_tac [he, hu, hk], ?_⟩
+      intro N hcons
+      exfalso
+      have := hcons.psi
+      rw [he] at this
+      simp at this
+      omega
+    rw [if_neg hdrop] at hs
+    simp only [hk, hpre none rfl, hn] at hs
     have hul1 : ∀ x ∈ uEv l1, x < c.nextId := by
       intro x hx; obtain ⟨e, he', _, rfl⟩ := mem_uEv.mp hx
       exact h.dur.idlt _ (mem_evK (he ▸ List.mem_append_left _ he'))
@@ -375,7 +412,7 @@ theorem good_ev (c c' : Cfg) (id : Nat) (cut : Option Nat) (h : SInv c)
       have hnsb : c.sent.contains m.id = false := by simpa using hns
       cons_tac [he, hk, hkm', hid', hnsb, hnx]
     | done =>
-      simp only [advance_done_top, Option.some.injEq] at hs
+      simp only [advance_done_top _ _ _ _ _ _ hj0, Option.some.injEq] at hs
       subst hs
       refine good_handler cut hd1 (ok_end start none hc1 h1' h2' hu' (by simp)) (by simp [Cfg.vol, hnj]) ?_
       have := fold_end { c with evq := l1 ++ m' :: l2 } start m'.id none
@@ -391,7 +428,7 @@ theorem good_ev (c c' : Cfg) (id : Nat) (cut : Option Nat) (h : SInv c)
     | step rest =>
       have hrs : rest.seq = true := hseq
       rcases seq_cases hrs with rfl | ⟨hv, hkk⟩
-      · simp only [advance_done_top, Option.some.injEq] at hs
+      · simp only [advance_done_top _ _ _ _ _ _ hj0, Option.some.injEq] at hs
         subst hs
         refine good_handler cut hd1 (ok_end start none hc1 h1' h2' hu' (by simp)) (by simp [Cfg.vol, hnj]) ?_
         have := fold_end { c with evq := l1 ++ m' :: l2 } start m'.id none
@@ -516,11 +553,13 @@ theorem good_tm (c c' : Cfg) (id : Nat) (cut : Option Nat) (h : SInv c)
       intro hnt hh
       have := (h.dur.reply _ (mem_evK hm) hh).1
       rw [hnt] at this; cases this
+    have hj0 : ({ timers := c.timers.erase m.id, pending := c.vol.pending, orphans := c.vol.orphans, joins := c.vol.joins } : Vol).joins = [] := hnj
     cases t with
     | wait rest =>
+      simp only [waitVisit, Bool.not_true, Bool.false_and, Bool.false_eq_true, if_false] at hs
       have hrs : rest.seq = true := hseq
       rcases seq_cases hrs with rfl | ⟨hv, hkk⟩
-      · simp only [advance_done_top, Option.some.injEq] at hs
+      · simp only [advance_done_top _ _ _ _ _ _ hj0, Option.some.injEq] at hs
         subst hs
         refine good_handler cut h.dur (ok_end false none he h1 h2 hu (by simp)) (by simp [Cfg.vol, hnj]) ?_
         have := fold_end c false m.id none
@@ -547,6 +586,29 @@ theorem good_tm (c c' : Cfg) (id : Nat) (cut : Option Nat) (h : SInv c)
         have hnsb : c.sent.contains m.id = false := by simpa using hns
         cons_tac [he, hk, hnsb, hnx]
     | task rc rest =>
+      rw [inDead_top c _ m hk h.dur.nofail, dropEv_top _ c _ m hk] at hs
+      simp only [waitVisit, Bool.not_false, Bool.true_and] at hs
+      by_cases hdrop : (decide (c.notes > 0) && !m.redelivered) = true
+      · -- the execution has ended since the event was accepted (it was not redelivered): dropped
+        have hnotes : 1 ≤ c.notes := by
+          simp only [Bool.and_eq_true, decide_eq_true_eq] at hdrop; exact hdrop.1
+        simp only [hdrop, if_true, Option.some.injEq] at hs
+        subst hs
+        refine good_handler cut h.dur ⟨Or.inl hnotes, trivial⟩ (by simp [Cfg.vol, hnj]) ?_
+        have hq := ack_split h1 h2 (l3 := []) (by simp) hu
+        simp only [List.append_nil] at hq
+        have hfold : List.foldl Cfg.act c [Act.ackEv m.id] = { c with evq := l1 ++ l2 } := by
+          simp only [List.foldl, Cfg.act]
+          rw [show (fun x => !(x.id == m.id && x.unacked)) = ackP m.id from rfl, he, hq]
+        rw [hfold]
+        refine ⟨by voli_grind, fun _ => by mu_tac [he, hu, hk], ?_⟩
+        intro N hcons
+        exfalso
+        have := hcons.psi
+        rw [he] at this
+        simp at this
+        omega
+      rw [if_neg hdrop] at hs
       simp only [Quirks.none, Bool.false_eq_true, if_false, requestOf, Option.some.injEq, List.contains_iff_mem] at hs
       by_cases hsn : m.id ∈ c.sent
       · simp only [hsn, if_true] at hs
@@ -570,8 +632,12 @@ theorem good_tm (c c' : Cfg) (id : Nat) (cut : Option Nat) (h : SInv c)
           List.filter_congr (fun e he' => by have := h2 e he'; simp [this])
         have hself : (c.sent ++ [m.id]).contains m.id = true := by simp
         cons_tac [he, hk, hsnb, hnx, hf1, hf2, hself]
-    | done => simp at hs
-    | step _ => simp at hs
+    | done =>
+      have := t_kind m (by simp) hc
+      rw [hk] at this; simp [timerKind] at this
+    | step _ =>
+      have := t_kind m (by simp) hc
+      rw [hk] at this; simp [timerKind] at this
     | par _ _ _ => simp [Sk.seq] at hseq
     | child _ _ _ => simp [Sk.seq] at hseq
     | fail _ _ => simp [Sk.seq] at hseq
@@ -655,8 +721,9 @@ theorem good_reply (c c' : Cfg) (cut : Option Nat) (h : SInv c) {m : QEv} {l1 l2
   | task rc rest =>
     have hrs : rest.seq = true := hseq
     simp only [hn] at hon
+    have hj0 : ({ timers := c.timers, pending := c.pending.erase m.id, orphans := orph, joins := c.joins } : Vol).joins = [] := hnj
     rcases seq_cases hrs with rfl | ⟨hv, hkk⟩
-    · simp only [advance_done_top, Option.some.injEq, Prod.mk.injEq] at hon
+    · simp only [advance_done_top _ _ _ _ _ _ hj0, Option.some.injEq, Prod.mk.injEq] at hon
       obtain ⟨rfl, rfl⟩ := hon
       subst hs
       refine good_handler cut hd1 (ok_end false (some m.id) hc1e h1 h2 hu (by simp)) (by simp [hnj]) ?_
@@ -876,7 +943,7 @@ theorem canon_enabled (c : Cfg) (h : SInv c) (op : Op) (hop : nextOp c = some op
     unfold step
     rw [if_neg (by simp [hnd])]
     simp only [hc', Bool.false_eq_true, if_false, hf, hk]
-    cases tt <;> simp [hk, timerKind, Sk.seq] at htk hseq ⊢
+    cases tt <;> simp [hk, timerKind, Sk.seq] at htk hseq ⊢ <;> split <;> exact ⟨_, rfl⟩
   · split at hop
     · -- an event is ready
       rename_i m hm
@@ -891,9 +958,11 @@ theorem canon_enabled (c : Cfg) (h : SInv c) (op : Op) (hop : nextOp c = some op
       replace hk : m.kind = .visit tt [] start none := hk
       unfold step
       rw [if_neg (by simp [hnd])]
-      simp only [hf, hk, inDeadJoin, evStack, List.any_nil, Bool.false_eq_true, if_false]
-      cases tt <;> simp [Sk.seq] at hseq ⊢
-      split <;> exact ⟨_, rfl⟩
+      simp only [hf, hk]
+      split
+      · exact ⟨_, rfl⟩
+      · cases tt <;> simp [Sk.seq] at hseq ⊢
+        split <;> exact ⟨_, rfl⟩
     · split at hop
       · -- a reply is ready
         rename_i hne r hr
